@@ -714,7 +714,8 @@ Qed.
 
 (* ------------------------------------------------------------------------------------------ freshly built variables *)
 
-Definition fresh_iv (v : ivar) : Prop := (iv_type v = VUnknown \/ iv_type v = VInitialised) /\ iv_external v = false.
+Definition fresh_iv (v : ivar) : Prop :=
+  (iv_type v = VUnknown \/ iv_type v = VInitialised) /\ iv_external v = false /\ iv_index v = None.
 
 Lemma internal_variable_fresh : forall s ivs r, Forall fresh_iv ivs -> Forall fresh_iv (fst (internal_variable s ivs r)).
 Proof.
@@ -772,7 +773,7 @@ Proof.
   pose proof (internal_variable_fresh s ivs (c, i) Hf) as Hi.
   destruct (internal_variable s ivs (c, i)) as [ivs1 p]. cbn in Hi. apply IH.
   destruct (has_init (get_var s (c, i)) && negb (has_init (get_var s (iv_var (geti ivs1 p))))); [|exact Hi].
-  apply Forall_upd; [exact Hi|]. pose proof (Forall_geti _ _ p Hi fresh_divar) as (_ & Hx).
+  apply Forall_upd; [exact Hi|]. pose proof (Forall_geti _ _ p Hi fresh_divar) as (_ & Hx & Hy).
   unfold fresh_iv. cbn. auto.
 Qed.
 
@@ -971,7 +972,7 @@ Lemma analyse_asts_inv : forall s ivs es,
 Proof.
   intros s ivs es Hok Hcov Hf He Hi. unfold analyse_asts in *.
   assert (Hne : Forall (fun v => iv_external v = false) ivs).
-  { eapply Forall_impl; [|exact Hf]. intros v (_ & H). exact H. }
+  { eapply Forall_impl; [|exact Hf]. intros v (_ & H & _). exact H. }
   assert (H0 : asts_inv s (mkVs ivs None [])).
   { unfold asts_inv. cbn. split; [exact Hok|]. split; [exact Hcov|]. split; [exact Hne|]. intros _.
     unfold iv_inv. split; [exact Hok|]. split; [exact Hcov|]. split; [|split; [|exact Hne]].
